@@ -34,23 +34,23 @@ def isDig (b r c : Nat) : Bool := decide (dv b c < r)
 /-- the C string: the bytes before the first NUL -/
 def cstr (s : List Nat) : List Nat := s.takeWhile (· != 0)
 
-/-- `mant`: white space removed, the text is `D* ('.' D*)?`; yields the digit values and the number of digits
-    after the point -/
-def mantissa (b : Nat) (m : List Nat) : Option (List Nat × Nat) :=
-  let t := m.filter (fun c => !Radix.isSpace c)
+/-- `D* ('.' D*)?` on the text without white space: the digit values and, when there is a point, the number of
+    digits after it -/
+def mantText (b : Nat) (t : List Nat) : Option (List Nat × Option Nat) :=
   let ip := t.takeWhile (· != 46)
   match t.dropWhile (· != 46) with
-  | [] => if ip.all (isDig b b) then some (ip.map (dv b), 0) else none
+  | [] => if ip.all (isDig b b) then some (ip.map (dv b), none) else none
   | _ :: fp =>
-    if ip.all (isDig b b) && fp.all (isDig b b) then some ((ip ++ fp).map (dv b), fp.length) else none
+    if ip.all (isDig b b) && fp.all (isDig b b) then some ((ip ++ fp).map (dv b), some fp.length) else none
+
+/-- `mant`: white space is simply ignored -/
+def mantissa (b : Nat) (m : List Nat) : Option (List Nat × Option Nat) :=
+  mantText b (m.filter (fun c => !Radix.isSpace c))
 
 /-- `expo junk`: optional sign, the longest run of digits of base `eb`, at least one -/
 def exponent (b eb : Nat) (e : List Nat) : Option Int :=
-  let body := match e with
-    | 43 :: r => r
-    | 45 :: r => r
-    | _ => e
-  let run := body.takeWhile (isDig b eb)
+  let signed := e.head? == some 43 || e.head? == some 45
+  let run := (if signed then e.tail else e).takeWhile (isDig b eb)
   if run.length = 0 then none
   else
     let v : Int := (Radix.ofDigits eb (run.map (dv b)) : Nat)
@@ -65,7 +65,8 @@ def body (neg : Bool) (b eb : Nat) : List Nat → Option Parsed
     let m := c :: rest.takeWhile (fun x => !isMarker b x)          -- up to the FIRST marker
     match mantissa b m with
     | none => none
-    | some (ds, frac) =>
+    | some (ds, pt) =>
+      let frac := pt.getD 0
       match rest.dropWhile (fun x => !isMarker b x) with
       | [] => some ⟨neg, b, ds, frac, 0⟩
       | _ :: e =>
